@@ -405,40 +405,58 @@ func writePairwiseAlignment(p string, w int, cPair chan alignPair, cWriteDone ch
 	} else {
 		os.MkdirAll(p, 0755)
 
-		for AP := range cPair {
-			// forward slashes are illegal in unix filenames (so is ascii NUL ?)
-			des := strings.ReplaceAll(AP.queryname, "/", "_")
-			// unix filenames must be <= 255 chars, (account for ".fasta")
-			if len(des) > 249 {
-				fmt.Fprintf(os.Stderr, "Filename too long, truncating \"%s\" to: \"%s\"\n", des, des[0:249])
-				des = des[0:249]
-			}
-			f, err := os.Create(path.Join(p, des+".fasta"))
-			if err != nil {
-				cErr <- err
-			}
-			if !omitRef {
-				_, err = f.WriteString(">" + AP.refname + "\n")
-				if err != nil {
-					cErr <- err
+		// as for stdout: restore the input order before writing, so that when two queries map to
+		// the same file name the file always holds the same one of them (the later one in the input)
+		outputMap := make(map[int]alignPair)
+		counter := 0
+		for arrived := range cPair {
+			outputMap[arrived.idx] = arrived
+			for {
+				AP, ok := outputMap[counter]
+				if !ok {
+					break
 				}
-				_, err = f.WriteString(wrap(string(AP.ref), w))
-				if err != nil {
-					cErr <- err
-				}
+				delete(outputMap, counter)
+				counter++
+				writePairFile(p, w, AP, cErr, omitRef)
 			}
-			_, err = f.WriteString(">" + AP.queryname + "\n")
-			if err != nil {
-				cErr <- err
-			}
-			_, err = f.WriteString(wrap(string(AP.query), w))
-			if err != nil {
-				cErr <- err
-			}
-			f.Close()
 		}
 	}
 	cWriteDone <- true
+}
+
+// writePairFile writes one pairwise alignment to its own file in directory p
+func writePairFile(p string, w int, AP alignPair, cErr chan error, omitRef bool) {
+	// forward slashes are illegal in unix filenames (so is ascii NUL ?)
+	des := strings.ReplaceAll(AP.queryname, "/", "_")
+	// unix filenames must be <= 255 chars, (account for ".fasta")
+	if len(des) > 249 {
+		fmt.Fprintf(os.Stderr, "Filename too long, truncating \"%s\" to: \"%s\"\n", des, des[0:249])
+		des = des[0:249]
+	}
+	f, err := os.Create(path.Join(p, des+".fasta"))
+	if err != nil {
+		cErr <- err
+	}
+	if !omitRef {
+		_, err = f.WriteString(">" + AP.refname + "\n")
+		if err != nil {
+			cErr <- err
+		}
+		_, err = f.WriteString(wrap(string(AP.ref), w))
+		if err != nil {
+			cErr <- err
+		}
+	}
+	_, err = f.WriteString(">" + AP.queryname + "\n")
+	if err != nil {
+		cErr <- err
+	}
+	_, err = f.WriteString(wrap(string(AP.query), w))
+	if err != nil {
+		cErr <- err
+	}
+	f.Close()
 }
 
 // ToPairAlign converts a SAM file containing pairwise alignments between assembled genomes into pairwise fasta-format alignments,
